@@ -7,7 +7,7 @@
    recently assigned on that path, and fails as soon as a read names another
    version or a phi does not find the incoming version among its arguments. *)
 From Coq Require Import ZArith NArith List Bool.
-Require Import Model.Base Model.Ir Model.SsaCheck Spec.SsaSpec Proofs.SsaProofs.
+Require Import Model.Base Model.Ir Model.SsaCheck Model.SsaErase Spec.SsaSpec Spec.SsaOrigin Proofs.SsaProofs Proofs.SsaEraseProofs.
 Import ListNotations.
 
 (* along EVERY path (no bound on length or loop unrolling), every read names
@@ -62,6 +62,41 @@ Theorem C14_local_conditions_suffice : forall c infos,
 Proof. exact paths_ok. Qed.
 Print Assumptions C14_local_conditions_suffice.
 
+(* ---- "it sees the same assignment as the original program" ----
+   SsaErase.erase_check (run by the check on the real graphs before and after
+   SSA conversion) accepts when the SSA graph is the original graph with versions
+   added and phi statements prepended.  Then the two graphs have the same paths ... *)
+Theorem C14_erasure_same_paths : forall pre c pi,
+  erase_eqb pre c = true -> (path_from_entry c pi <-> path_from_entry pre pi).
+Proof. exact erase_same_paths. Qed.
+Print Assumptions C14_erasure_same_paths.
+
+(* ... at the end of EVERY path (no bound), the origin of the running version of a
+   variable - the body statement that assigned it, followed back through the phi
+   statements executed on the path - is the position of the assignment to that
+   variable executed last in the ORIGINAL program along the same path ... *)
+Theorem C14_origin_is_last_source_assignment : forall pre c pi x n,
+  erase_check pre c = true ->
+  vget (fst (org_path c (params_map (c_params c), O0) pi)) x = Some n ->
+  snd (org_path c (params_map (c_params c), O0) pi) x n = src_path pre S0 pi x.
+Proof. exact origin_is_last_source_assignment. Qed.
+Print Assumptions C14_origin_is_last_source_assignment.
+
+(* ... and for every read: the original block has a similar statement at the same
+   position, the read names the running version, and the origin of that version is
+   the source assignment reaching that statement in the original program *)
+Theorem C14_reads_see_source_assignment : forall pre c idom pi bi b k s v n,
+  ssa_check c idom = true -> erase_check pre c = true ->
+  path_from_entry c (pi ++ [bi]) ->
+  nth_error (c_blocks c) bi = Some b -> nth_error (body_of b) k = Some s ->
+  In v (stmt_reads s) -> vn_version v = Some n -> update_base s <> Some v ->
+  path_from_entry pre (pi ++ [bi]) /\
+  (exists bp s', nth_error (c_blocks pre) bi = Some bp /\ nth_error (b_stmts bp) k = Some s' /\ stmt_sim s' s = true) /\
+  vget (fst (org_at c pi bi k)) (key_of v) = Some n /\
+  snd (org_at c pi bi k) (key_of v) n = src_at pre pi bi k (key_of v).
+Proof. exact reads_see_source_assignment. Qed.
+Print Assumptions C14_reads_see_source_assignment.
+
 (* non-vacuity: a two-block loop graph  x.1 = phi(x.0, x.2); x.2 = x.1 + 1  is
    accepted, and the same graph reading the stale x.0 in the loop is rejected *)
 Definition k0 : know := {| kval := None; kdeg := None |}.
@@ -82,3 +117,24 @@ Proof. vm_compute. split; reflexivity. Qed.
 Example C14_long_path_executes :
   exists L, exec_path (loop_graph 1) (params_map [xv 0]) [0; 1; 1; 1; 1; 1]%nat = Some L.
 Proof. vm_compute. eauto. Qed.
+
+(* the loop graph is the SSA form of  x = x + 1  in a loop; after three rounds the
+   running version x.2 has its origin at block 1, body position 0, which is where the
+   original program assigned x last; a graph reading another variable is not an erasure *)
+Definition xu : vname := {| vn_name := [120%N]; vn_suffix := None; vn_version := None |}.
+Definition yu : vname := {| vn_name := [121%N]; vn_suffix := None; vn_version := None |}.
+Definition pre_graph (readv : vname) : cfg :=
+  {| c_kind := KFunction; c_params := [xu]; c_decls := [(xu, TLocal)];
+     c_blocks :=
+       [ {| b_index := 0%N; b_depth := 0%N; b_stmts := []; b_preds := []; b_succs := [1%N] |};
+         {| b_index := 1%N; b_depth := 1%N;
+            b_stmts := [ SSubst m0 xu OpVar (EInfix IAdd (EVar readv k0) (ENum 1 k0) k0) None (Some TLocal) ];
+            b_preds := [0%N; 1%N]; b_succs := [1%N] |} ] |}.
+Example C14_erasure_accepts_and_rejects :
+  erase_check (pre_graph xu) (loop_graph 1) = true /\ erase_check (pre_graph yu) (loop_graph 1) = false.
+Proof. vm_compute. split; reflexivity. Qed.
+Example C14_origin_example :
+  let st := org_path (loop_graph 1) (params_map [xv 0], O0) [0; 1; 1; 1]%nat in
+  vget (fst st) (key_of xu) = Some 2%N /\ snd st (key_of xu) 2%N = Some (1, 0)%nat /\
+  src_path (pre_graph xu) S0 [0; 1; 1; 1]%nat (key_of xu) = Some (1, 0)%nat.
+Proof. vm_compute. repeat split; reflexivity. Qed.
